@@ -3,6 +3,7 @@ package c17
 
 import (
 	"fmt"
+	"github.com/dave/jennifer/jen"
 	"go/token"
 	"reflect"
 	"sort"
@@ -155,6 +156,55 @@ func check1(c Case) error {
 	}
 	if n != 1 {
 		return fmt.Errorf("formatted output has %d string literals", n)
+	}
+	// one Go map given to three Tag calls (two fields, a second struct), the File rendered twice:
+	// every use renders the literal the single use renders, and the caller's map is left as it was
+	m := map[string]string{}
+	for _, kv := range c.Tag {
+		m[string(kv.K)] = string(kv.V)
+	}
+	var outs [2]string
+	if perr := hx.Safe(func() error {
+		f := jen.NewFile("p")
+		f.NoFormat = true
+		f.Type().Id("T").Struct(jen.Id("F").String().Tag(m), jen.Id("G").Int().Tag(m))
+		f.Type().Id("U").StructFunc(func(g *jen.Group) { g.Id("H").Bool().Tag(m) })
+		for k := range outs {
+			b := &strings.Builder{}
+			if err := f.Render(b); err != nil {
+				return err
+			}
+			outs[k] = b.String()
+		}
+		return nil
+	}); perr != nil {
+		return fmt.Errorf("one map given to three Tag calls: %v", perr)
+	}
+	for k, o := range outs {
+		ts, err := litx.Scan(o)
+		if err != nil {
+			return fmt.Errorf("one map given to three Tag calls: output does not scan: %v\n%s", err, o)
+		}
+		cnt := 0
+		for _, t := range ts {
+			if t.Tok == token.STRING {
+				cnt++
+				if t.Lit != lit {
+					return fmt.Errorf("one map given to three Tag calls (render %d): a field carries %s, the single use renders %s\n%s", k+1, t.Lit, lit, o)
+				}
+			}
+		}
+		if cnt != 3 {
+			return fmt.Errorf("one map given to three Tag calls (render %d): %d tag literals in the output\n%s", k+1, cnt, o)
+		}
+	}
+	if len(m) != len(c.Tag) {
+		return fmt.Errorf("the caller's map had %d entries, after rendering it has %d", len(c.Tag), len(m))
+	}
+	for _, kv := range c.Tag {
+		if v, ok := m[string(kv.K)]; !ok || v != string(kv.V) {
+			return fmt.Errorf("the caller's map was changed by rendering: key %q now maps to %q (present %v), was %q", string(kv.K), v, ok, string(kv.V))
+		}
 	}
 	return nil
 }
